@@ -16,23 +16,20 @@ open FVal
 variable {K : Type} [Field K] [LinearOrder K] [IsStrictOrderedRing K] [FloorRing K]
 variable {Bo : BoostOps K} {P : PointFns K}
 
-/-- The hypotheses under which the enclosure lemma of an opcode holds on this tree.  `True` for the
-    opcodes whose flag logic is complete; for the others this is exactly what `interval.hpp` fails to
-    check (or what Boost does not deliver), cf. the `*_unsound` theorems in LibfiveTheorems/C02.lean. -/
+/-- The hypotheses under which the enclosure lemma of an opcode holds.  On the fixed tree this is
+    `True` for every opcode except `pow` / `nth_root`:
+    * both take an integer CONSTANT exponent (the only exponents libfive's API admits — `int(b.lower())`
+      is all the interval code looks at);
+    * `pow`: for exponent 0 the base is not the point interval `[0,0]` (Boost's `pow` returns the empty
+      interval; the result is flagged, but its NaN bounds do not contain the value `0^0 = 1`);
+    * `nth_root`: finite operand bounds (Boost's `nth_root` returns a NaN bound for an infinite endpoint;
+      the result is flagged since the fix, but the bounds do not contain the value at `+∞`). -/
 def SafeArgs (Bo : BoostOps K) (P : PointFns K) (op : Op) (A B : IVal K) : Prop :=
   match op with
-  | .sub => ¬ (A.hi = pinf ∧ B.hi = pinf)
-  | .sin | .cos | .tan => A.lo.isFinite = true ∧ A.hi.isFinite = true
-  | .log => FVal.lt zeroV A.hi = true
-  | .recip => Ivl.hasZero A = false
-  | .compare => A.mn = false ∧ B.mn = false
   | .pow => ∃ y k, B = ⟨fin y, fin y, false⟩ ∧ P.toInt? y = some k ∧ Bo.toInt (fin y) = k ∧
-      (k < 0 → Ivl.hasZero A = false) ∧ (k = 0 → ¬ (A.lo = fin 0 ∧ A.hi = fin 0))
+      (k = 0 → ¬ (A.lo = fin 0 ∧ A.hi = fin 0))
   | .nthRoot => ∃ y k, B = ⟨fin y, fin y, false⟩ ∧ P.toInt? y = some k ∧ Bo.toInt (fin y) = k ∧
-      1 ≤ k ∧ A.lo.isFinite = true ∧ A.hi.isFinite = true ∧
-      (FVal.lt A.lo zeroV = true → oddI k = false → bit1 k = false)
-  | .mod => ModSafe Bo A B
-  | .atan2 => True
+      1 ≤ k ∧ A.lo.isFinite = true ∧ A.hi.isFinite = true
   | _ => True
 
 theorem PointRel.plain {op : Op} {a b r : FVal K} (h1 : op ≠ Op.div) (h2 : op ≠ Op.recip)
@@ -57,15 +54,15 @@ theorem op_enclS_all (hS : BoostSound Bo P) (hA2 : Atan2Sound Bo P) (hM : ModSou
     · cases h
     · cases h
   case recip =>
-    refine recip_enclS_partial hS hsafe ha ?_
+    refine recip_enclS hS ha ?_
     rcases hr with h | ⟨h, _⟩ | ⟨_, h0, h⟩ | ⟨h, _⟩
     · exact Or.inl h
     · cases h
     · exact Or.inr ⟨h0, h⟩
     · cases h
   case pow =>
-    obtain ⟨y, k, hB, hk, hti, hneg, hzero⟩ := hsafe
-    refine pow_enclS_partial hS hB hk hti hneg hzero ha hb ?_
+    obtain ⟨y, k, hB, hk, hti, hzero⟩ := hsafe
+    refine pow_enclS_partial hS hB hk hti hzero ha hb ?_
     rcases hr with h | ⟨h, _⟩ | ⟨h, _⟩ | ⟨_, h0, hk', h⟩
     · exact Or.inl h
     · cases h
@@ -76,25 +73,25 @@ theorem op_enclS_all (hS : BoostSound Bo P) (hA2 : Atan2Sound Bo P) (hM : ModSou
   case mul => exact mul_enclS hS ha hb
   case min => exact min_enclS hS ha hb
   case max => exact max_enclS hS ha hb
-  case sub => exact sub_enclS_partial hS hsafe ha hb
+  case sub => exact sub_enclS hS ha hb
   case atan2 => exact atan2_enclS hA2 ha hb
   case nthRoot =>
-    obtain ⟨y, k, hB, hk, hti, h1, hl, hh, hpar⟩ := hsafe
-    exact nthRoot_enclS_partial hS hB hk hti h1 hl hh hpar ha hb
-  case mod => exact mod_enclS_partial hS hM hsafe ha hb
+    obtain ⟨y, k, hB, hk, hti, h1, hl, hh⟩ := hsafe
+    exact nthRoot_enclS_partial hS hB hk hti h1 hl hh ha hb
+  case mod => exact mod_enclS hS hM ha hb
   case nanfill => exact nanfill_enclS hS ha hb
-  case compare => exact compare_enclS_partial hsafe.1 hsafe.2 ha hb
+  case compare => exact compare_enclS ha hb
   case square => exact square_enclS hS ha
   case sqrt => exact sqrt_enclS hS ha
   case neg => exact neg_enclS hS ha
-  case sin => exact sin_enclS_partial hS hsafe.1 hsafe.2 ha
-  case cos => exact cos_enclS_partial hS hsafe.1 hsafe.2 ha
-  case tan => exact tan_enclS_partial hS hsafe.1 hsafe.2 ha
+  case sin => exact sin_enclS hS ha
+  case cos => exact cos_enclS hS ha
+  case tan => exact tan_enclS hS ha
   case asin => exact asin_enclS hS ha
   case acos => exact acos_enclS hS ha
   case atan => exact atan_enclS hS ha
   case exp => exact exp_enclS hS ha
-  case log => exact log_enclS_partial hS hsafe ha
+  case log => exact log_enclS hS ha
   case abs => exact abs_enclS hS ha
   all_goals exact ha
 
